@@ -157,6 +157,20 @@ def main():
         print(json.dumps(engine.digests(prop, tier, seed, args.digests[0], args.digests[1],
                                         workers)))
         return 0
+    # one scratch directory for everything this check starts (run workers, shrink workers);
+    # forked pool workers leave through os._exit, so their atexit handlers never run
+    import shutil
+    import tempfile
+
+    scratch = tempfile.mkdtemp(prefix="cxv-")
+    os.environ["COXETER_VERIF_SANDBOX"] = scratch
+    try:
+        return _explore_and_report(args, prop, tier, seed, engine, evidence, findings)
+    finally:
+        shutil.rmtree(scratch, ignore_errors=True)
+
+
+def _explore_and_report(args, prop, tier, seed, engine, evidence, findings):
     t0 = time.time()
     print("check %s tier=%s VERIF_SEED=%d src=%s" % (prop, tier, seed, engine.REPO), flush=True)
     machine, agg = engine.explore(prop, tier, seed)
